@@ -1,6 +1,7 @@
 import Amgcl.Proofs.LockstepRichardson
 import Amgcl.Proofs.LockstepBiCGStab
 import Amgcl.Proofs.LockstepFGMRES
+import Amgcl.Model.LockstepPreonly
 import Amgcl.Properties.C12
 /-!
 # C12 (continued) — the other distributed Krylov solvers: Richardson, BiCGStab, GMRES, FGMRES
@@ -228,6 +229,27 @@ theorem lockstep_fgmres_truthful (A : CRS K) (P : Vec K → Vec K) (C : DCtx K) 
     simpa [Run.out] using this
   · rw [h4]; exact ht
 
+/-! ## preonly -/
+
+/-- **preonly, distributed = serial**: `P.apply(rhs, x)` on every rank gives the parts of the serial `P rhs`; the
+returned `(0, 0)` is a constant (preonly is outside the truthfulness claim, `C01.preonly_reports_zero`). -/
+theorem lockstep_preonly_refines_serial (A : CRS K) (P : Vec K → Vec K) (C : DCtx K) (hS : Setup A P C)
+    (sqrt : K → K) (eps : K) (f x0 : Vec K) (hf : f.size = C.part.sum) (hx : x0.size = C.part.sum) :
+    ∃ ds', drun C (Lockstep.Preonly.prog : Prog K Unit) (distribute C.part (Lockstep.Preonly.initState f x0)) = some ds' ∧
+      ds'.vec Lockstep.Preonly.vX
+        = splitVec (Solver.Preonly.run (innerProductSerial C.conj) sqrt eps A P () f x0).x C.part ∧
+      concatVec (ds'.vec Lockstep.Preonly.vX)
+        = (Solver.Preonly.run (innerProductSerial C.conj) sqrt eps A P () f x0).x := by
+  have hsize : ∀ v, ((Lockstep.Preonly.initState f x0).vec v).size = C.part.sum := by
+    intro v
+    unfold Lockstep.Preonly.initState
+    simp only
+    split_ifs <;> assumption
+  obtain ⟨ds', g1, _, g3⟩ := lockstep_refines_serial A P C hS (Lockstep.Preonly.prog : Prog K Unit) _ hsize
+  refine ⟨ds', g1, ?_, ?_⟩
+  · rw [(g3 _).1]; rfl
+  · rw [(g3 _).2]; rfl
+
 /-! ## non-vacuity: the hypotheses of every theorem above are satisfiable on a concrete run
 
 The 1-D Laplacian `exA` on 3 ranks (the middle one EMPTY), rank-local diagonal preconditioner `x = M .* rhs`
@@ -309,5 +331,14 @@ example : ∃ ds', drun exCd (Lockstep.FGMRES.prog exFg id 0)
   obtain ⟨ds', h1, h2, _, h4⟩ := lockstep_fgmres_truthful exA exP exCd exSetup exFg id 0 _ _ _
     (by decide) (by decide) (fun _ => size_replicate3) (fun _ => size_replicate3) it res x w h
   exact ⟨ds', h1, it, res, h2, h4⟩
+
+example : ∃ ds', drun exCd (Lockstep.Preonly.prog : Prog Rat Unit)
+      (distribute exCd.part (Lockstep.Preonly.initState #[1, 2, 3] #[0, 0, 0])) = some ds' ∧
+    concatVec (ds'.vec Lockstep.Preonly.vX) = #[1/2, 2/3, 3/2] := by
+  obtain ⟨ds', h1, _, h3⟩ := lockstep_preonly_refines_serial exA exP exCd exSetup id 0 #[1, 2, 3] #[0, 0, 0]
+    (by decide) (by decide)
+  refine ⟨ds', h1, ?_⟩
+  rw [h3]
+  decide +kernel
 
 end Amgcl.C12
